@@ -8,18 +8,21 @@ HEADER = """From QV Require Import Common.Prelude Engine.Model Engine.Check.
 Open Scope Z_scope."""
 
 ENGINE_TB = [
-    "engine model = Engine/Model.v (all query kinds, sequentialised) and Engine/Core.v (inputs + normal queries), written by hand; tied to crates/qbice/src/engine/computation_graph* by exact comparison of answers, SetInputResults, the multiset of executor invocations per operation and (where deterministic) the dirtied-edge statistic on this run's random histories",
+    "engine model = Engine/Model.v (all query kinds, sequentialised) and Engine/Core.v (inputs + normal queries), written by hand; tied to crates/qbice/src/engine/computation_graph* by exact comparison of answers, SetInputResults, the multiset of executor invocations per operation, (where deterministic) the dirtied-edge statistic and, after every operation, the persisted bookkeeping of every query (computed or not, pending backward projection, transitive firewall callees, dependency order, observed dependencies and which observations are current in value / in firewall fingerprint, dirty edges) read through the hook qbice::verif_hooks::dump_node, on this run's random histories",
     "fingerprints are modelled by the values themselves (H-hash: no 128-bit collision among the values in play)",
     "the from-scratch oracle (harness/src/prog.rs `oracle`) judges the real engine independently of the model",
     "parallel tasks inside one request (transitive-firewall repair, unordered groups, backward projections) are sequentialised in the model; runs use a current-thread runtime so that the comparison is deterministic (multi-thread runs are judged by the oracle only)",
 ]
 
-def run_hist(ctx, outdir, seed, n, shards, cfg, mode, threads=1, hang_secs=20):
+def run_hist(ctx, outdir, seed, n, shards, cfg, mode, threads=1, hang_secs=20, dump=True):
+    """dump: after every operation the bookkeeping of every query is read through the hook
+    qbice::verif_hooks::dump_node and written into the case (mkCaseS), so that the model is
+    compared state by state, not only by answers and executions"""
     os.makedirs(outdir, exist_ok=True)
     for f in glob.glob(os.path.join(outdir, "shard_*")):
         os.remove(f)
     rc, txt = vlib.sh([vlib.bin_path("engine"), "hist", outdir, str(seed), str(n), str(shards), cfg, mode],
-                      timeout=3000, env={"QV_THREADS": str(threads), "QV_HANG_SECS": str(hang_secs)})
+                      timeout=3000, env={"QV_THREADS": str(threads), "QV_HANG_SECS": str(hang_secs), **({"QV_DUMP": "1"} if dump and threads == 1 else {})})
     if rc != 0:
         raise vlib.CheckError(f"engine harness failed ({mode},{cfg}):\n" + txt[-2000:])
     return json.loads(txt.strip().splitlines()[-1])
